@@ -54,6 +54,8 @@ ASSUMPTIONS = [
     "a text that the external `pddl` parser does not parse (negative literals, missing :precondition, its own requirement "
     "checks) is not 'read by the AI-planning reader': that reader is then skipped, the default PDDLReader falls back to the UP reader",
     "undefined numeric fluents: only objects and initial state are compared (the simulator raises on partial states)",
+    "every action has at least one effect (the writer emits an action's cost inside its :effect section only: an effect-less "
+    "action loses its cost — noted, not repaired)",
     "model side: expressions are fixed points of the real simplifier (checked per case), kind features and the renaming are "
     "taken from the real code (C10, C38 own their models)",
 ]
